@@ -228,7 +228,7 @@ def replay_prefixes(h, case):
 # impl -> spec: recorded VM executions validated against VM.tla (VMTrace.tla)
 # ---------------------------------------------------------------------------
 
-MODELLED_HOOKS = {"Map", "Filter", "Reduce", "Range", "Trace"}
+MODELLED_HOOKS = {"Map", "Filter", "Reduce", "Range", "Trace", "Regex"}
 UNMODELLED_OPS = {"BuildConstraint", "CheckConstraint", "JumpIfTrue", "JumpIfFalse", "SafeIndex"}
 
 
